@@ -61,7 +61,7 @@ def run(ctx):
     if not scen:
         raise InfraError("LocalFS.tla emitted no scenario")
     ctx.note("tlc_atomicity", {"cfg": "MC_%s.cfg" % size, "distinct": mc.distinct, "generated": mc.generated, "depth": mc.depth,
-                               "scenarios": len(scen), "invariants": ["Atomic", "Publishes", "FailureKeepsPrior"],
+                               "scenarios": len(scen), "invariants": ["Atomic", "Publishes", "FailureKeepsPrior", "CannotStageKeepsPrior"],
                                "actions_fired": {k: v[0] for k, v in mc.coverage.items() if k in ("Open", "WriteChunk", "Close", "Rename", "Crash")}})
     # ------------------------------------------------------------------ build
     ov = ctx.make_overlay(["localfs"])
@@ -97,6 +97,10 @@ def run(ctx):
     for op in ("Write", "WriteReader", "AppendReader"):
         if not c["per_op_crash_points"].get(op):
             raise InfraError("no crash point exercised for %s" % op)
+    n_long = sum(1 for k in c["nontrivial_keys"] if "name=long" in k)
+    if not n_long or n_long != sum(1 for x in scen if x["sc"]["nm"] == "long"):
+        raise InfraError("the long-name class (staging name exceeds NAME_MAX) was not run completely: %d scenarios" % n_long)
+    ctx.note("long_name_scenarios", n_long)
     ctx.count(evaluations=c["crash_points_inspected"] + c["strace_runs"], nontrivial_keys=c["nontrivial_keys"])
     ctx.note("crash_replay", {k: c[k] for k in ("scenarios", "strace_runs", "kill_runs", "crash_points_inspected", "calls_on_tracked_names", "per_op_crash_points", "trace_lines")})
     for s in (c.get("samples") or [])[:1]:
@@ -134,7 +138,7 @@ def run(ctx):
             raise InfraError("trace validation failed without a diagnosis: %s" % (tv.error,))
     ctx.note("exhaustive", True)
     ctx.note("rule", "(a) every key of <=%d tokens over {/ . NUL \\\\ other} (+ the root directory's own name once, at the start of a segment) x 2 spellings x 15 backend operations, + validator-derived edge-sync paths, "
-                     "+ %s hand-made/random byte strings; (b) every scenario of LocalFS.tla (<=%d chunks) x every syscall boundary as a real SIGKILL point"
+                     "+ %s hand-made/random byte strings; (b) every scenario of LocalFS.tla (<=%d chunks, short names and names whose staging name exceeds NAME_MAX) x every syscall boundary as a real SIGKILL point"
              % (6 if ctx.quick() else 7, "1.5k" if ctx.quick() else "20k", 2 if ctx.quick() else 3))
     ctx.assume("crash = process death (SIGKILL); power loss / missing fsync is out of scope")
     ctx.assume("no symbolic links inside the storage root; path semantics are lexical")
